@@ -33,10 +33,13 @@ class ReplicaCheck:
         def one(job):
             r, n = job
             vlib.build_harness(r["binary"])
-            out = os.path.join(work, f"rectrace-{r['binary']}-{abs(hash(r.get('cfg','')))%9999}.ndjson")
+            out = os.path.join(work, f"rectrace-{r['binary']}-{abs(hash(r.get('cfg','') + r.get('in','')))%99999}.ndjson")
             env = dict(os.environ, VERIF_RECORD_DIR=recdir)
-            cmd = [vlib.harness_bin(r["binary"]), "random", "-out", out, "-seed", str(seed * 31 + 7),
-                   "-n", str(n), "-len", str(r["len"]), "-cfg", r.get("cfg", "")]
+            # RECORD entries may also name a scripted behaviours file: mode "replay" with "in"
+            cmd = [vlib.harness_bin(r["binary"]), r.get("mode", "random"), "-out", out, "-seed", str(seed * 31 + 7),
+                   "-n", str(n), "-len", str(r.get("len", 30)), "-cfg", r.get("cfg", "")]
+            if r.get("in"):
+                cmd += ["-in", os.path.join(ROOT, r["in"])]
             p = subprocess.run(cmd, env=env, capture_output=True, text=True, timeout=1800)
             if p.returncode != 0:
                 raise Inconclusive(f"recording driver {r['binary']} failed: {p.stderr[-2000:]}")
